@@ -345,8 +345,12 @@ def select_levelwise(tree, start, sat, nlevels, deep, roots, has_container):
         if lv + 1 < nlevels:
             nodes = [k for n in res for k in tree.kids[n]]
     if roots:
-        res = dedup([tree.root_of(r, has_container) for r in res])
+        res = to_roots(tree, res, has_container)
     return res, trace
+
+
+def to_roots(tree, res, has_container):
+    return dedup([tree.root_of(r, has_container) for r in res])
 
 
 def dedup(xs):
@@ -374,7 +378,7 @@ def select_pathwise(tree, start, sat, nlevels, deep, roots, has_container):
     hits.sort()
     res = [r for _, r in hits]
     if roots:
-        res = dedup([tree.root_of(r, has_container) for r in res])
+        res = to_roots(tree, res, has_container)
     return res
 
 
